@@ -22,7 +22,7 @@ RULE = ("obligations are (rule, method, construct) instances found by effect sig
 
 def check(ctx):
     P = ctx.program
-    iters = (0, 1, 2) if ctx.tier == "thorough" else (0, 1)
+    iters = (0, 1)
     node_views = family_views(P, "Node")
     arr_views = family_views(P, "ArrivalNode")
     exit_views = family_views(P, "ExitNode")
@@ -98,6 +98,9 @@ def check(ctx):
 
     # -- 5. removal index == insertion index
     index_agreement(ctx, P, node_views, iters)
+
+    # -- 6. the views through which the population is read are computed from the lists, never cached
+    population_views(ctx, P, node_views)
     ctx.assume("only in-repo node/arrival/exit classes are plugged into Simulation (user subclasses are outside the analysed program)")
     ctx.assume("an event is not aborted by an exception half-way (C14's subject)")
 
@@ -332,3 +335,43 @@ def index_agreement(ctx, P, views, iters):
                                       "customer inserted into individuals[%s] but removal uses individuals[%s.%s]; no assignment on this path makes them equal"
                                       % (idx, tok, "/".join(sorted(rem_idx))), e.where, witness(st))
     ctx.floor("insertion sites into individuals[*]", len(ob.nontrivial), 2)
+
+
+def population_views(ctx, P, views):
+    ob = ctx.ob("VIEWS", "all_individuals (the list every scan, record query and tracker reads) is computed from self.individuals on each access: no cached copy, no writes in the property")
+    for view in views:
+        r = view.resolve("all_individuals")
+        if r is None or "all_individuals" not in r[0].props:
+            ctx.unrecognised("VIEWS: %s.all_individuals is no longer a property" % view.name)
+            continue
+        cls, fn = r
+        writes = [x for x in ast.walk(fn) if isinstance(x, (ast.Assign, ast.AugAssign)) and any(not isinstance(t, ast.Name) for t in (x.targets if isinstance(x, ast.Assign) else [x.target]))]
+        rets = [x for x in ast.walk(fn) if isinstance(x, ast.Return)]
+        ob.ok("%s.all_individuals" % view.name, "; ".join(unparse(x.value) for x in rets))
+        for wr in writes:
+            ctx.violation(ob, "R1.computed-view", "%s.all_individuals" % cls.name, unparse(wr)[:80], "view-has-state",
+                          "the population view stores state: a stale copy makes customers appear at a node they left (or vanish) for every reader of all_individuals", loc(wr))
+        for x in rets:
+            txt = unparse(x.value)
+            ok = txt in ("self.individuals[0]", "flatten_list(self.individuals)") or ("self.individuals" in txt and not any(
+                isinstance(y, ast.Attribute) and isinstance(y.value, ast.Name) and y.value.id == "self" and y.attr not in ("individuals", "simulation") for y in ast.walk(x.value)))
+            if isinstance(x.value, ast.Name):
+                # a local: it must be built from self.individuals in this call
+                defs = [unparse(d.value) for d in ast.walk(fn) if isinstance(d, ast.Assign) and any(isinstance(t, ast.Name) and t.id == x.value.id for t in d.targets)]
+                ok = bool(defs) and all("self.individuals" in d for d in defs)
+            if not ok:
+                ctx.violation(ob, "R1.computed-view", "%s.all_individuals" % cls.name, "return " + txt[:80], "view-not-computed-from-lists",
+                              "all_individuals must be derived from self.individuals at each access (returning a stored copy lets it go stale within an event)", loc(x))
+        # flatten_list keeps every element, in order
+    fl = P.functions.get(("ciw.auxiliary", "flatten_list"))
+    if fl is None:
+        ctx.unrecognised("VIEWS: flatten_list not found")
+    else:
+        from ..model import alpha
+        want = "def flatten_list(list_of_lists):\n    flat = []\n    for a_list in list_of_lists:\n        flat += a_list\n    return flat"
+        body = ast.FunctionDef(name=fl.name, args=fl.args, body=[x for x in fl.body if not isinstance(x, ast.Pass) and not (isinstance(x, ast.Expr) and isinstance(x.value, ast.Constant))],
+                               decorator_list=[], returns=None, type_comment=None, type_params=[], lineno=1, col_offset=0)
+        alt = want.replace("flat += a_list", "flat = flat + a_list")
+        ob.ok("flatten_list")
+        if alpha(body) not in (alpha(want), alpha(alt)):
+            ctx.violation(ob, "R1.computed-view", "flatten_list", "flatten_list", "flatten-shape", "flatten_list must concatenate all sub-lists in order", loc(fl))
